@@ -61,4 +61,14 @@ with open(os.path.join(SEED, "RESULTS.md"), "w") as f:
     f.write("\n## What each change is\n\n")
     for sid, meta, res in rows:
         f.write("* **%s** — %s *Needs:* %s\n" % (sid, meta["change"].strip(), meta["needs_to_manifest"].strip()))
+# refresh the matrix quoted in DESIGN.md
+design = os.path.join(os.path.dirname(HERE), "DESIGN.md")
+r = open(os.path.join(SEED, "RESULTS.md")).read()
+st = r.index("| seed (target)")
+m = r[st:r.index("\n\n", st)]
+d = open(design).read()
+if "<!-- MATRIX-BEGIN -->" in d:
+    a = d.index("<!-- MATRIX-BEGIN -->") + len("<!-- MATRIX-BEGIN -->")
+    b = d.index("<!-- MATRIX-END -->")
+    open(design, "w").write(d[:a] + "\n" + m + "\n" + d[b:])
 print("written", len(rows))
